@@ -505,8 +505,19 @@ where
                     term: self.role.current_term(),
                 });
 
-                // Reset vote when stepping down (new term, no vote yet)
-                self.role.state_mut().reset_voted_for()?;
+                // Reset vote when stepping down (new term, no vote yet). A vote already cast in
+                // the *current* term is kept: stepping down within a term (e.g. a candidate that
+                // sees the elected leader's AppendEntries, a leader whose noop timed out) must
+                // not free the node to vote for a second candidate in that same term.
+                let current_term = self.role.current_term();
+                let voted_in_current_term = self
+                    .role
+                    .state()
+                    .voted_for()?
+                    .is_some_and(|v| v.voted_for_term >= current_term);
+                if !voted_in_current_term {
+                    self.role.state_mut().reset_voted_for()?;
+                }
 
                 // Notify leader change listeners
                 let current_term = self.role.current_term();
